@@ -8,7 +8,7 @@ from ..pipeline_oracle import classify_case, close_run, engine_quirk, examine_pi
 from ..runner import Outcome
 from . import Check
 
-WEIGHTS = {"mutate": 18, "summarize": 7, "join": 6, "union": 5, "filter": 4, "select": 3, "rename": 2, "group_by": 4,
+WEIGHTS = {"mutate": 18, "summarize": 7, "join": 6, "union": 7, "filter": 4, "select": 3, "rename": 2, "group_by": 4,
            "ungroup": 1, "arrange": 2, "alias": 2, "slice_head": 1, "drop": 1, "collect": 0}
 RETURN_RULE_OPS = {"truediv", "pow", "mean", "sum", "add", "floordiv", "mod", "round", "hsum", "hmax", "hmin", "coalesce", "fill_null"}
 
@@ -47,7 +47,8 @@ class C12(Check):
     ID = "C12"
     RULE = ("Hypothesis composite strategy: pipelines over tables with sized integer (Int8..UInt64) and Float32 columns, "
             "weighted towards column-creating verbs (mutate with typed expressions incl. null literals, lit(v, dtype), int "
-            "division, bool sums, mixed int/float case expressions, mean of ints, pow; summarize; join padding; union). "
+            "division, bool sums, mixed int/float case expressions, mean of ints, pow; summarize; join padding; union, incl. literal tag columns of "
+            "different types - Int/Float, null/typed - on the two operands). "
             "Oracle: for every output column the static `tbl[col].dtype()` vs the exported Polars dtype - equal to "
             "dtype.to_polars() for concrete types on Polars, same family for the abstract Int/Float, Null only for an "
             "all-null column; on SQLite the same family up to the width (any integer width ~ Int64, Float32 ~ Float64; a Decimal or "
@@ -59,7 +60,7 @@ class C12(Check):
 
     def cfg(self, tier):
         deep = tier == "thorough"
-        return pipegen.PCfg(weights=WEIGHTS, max_len=7 if deep else 5, min_len=1, max_tables=2, sub_len=1, sized=True,
+        return pipegen.PCfg(weights=WEIGHTS, max_len=7 if deep else 5, min_len=1, max_tables=2, sub_len=1, sized=True, union_mixed=8,
                             expr=Cfg(max_depth=4 if deep else 3))
 
     def strategy(self, tier):
